@@ -389,3 +389,147 @@ func c11TypedIntegers(r *vf.Run) {
 		}
 	}
 }
+
+// c11Lookalikes: string LITERALS of the query text that look like placeholders ("$1", "x$2", `"$1"`) next to real
+// placeholders, and argument values that look like placeholders or contain quotes; on the direct and on the prepared
+// path. Binding must touch the placeholders only.
+func c11Lookalikes(r *vf.Run) {
+	if !r.Want("lookalikes") {
+		return
+	}
+	look := []string{"$1", "$2", "$3", "$10", "$1$2", "x$1", "$1x", `"$1"`, "$", "$0", "$01", " $1 ", "a = $1", `x" | b = "y`, "$2147483647"}
+	plain := []string{"", "y", "1", "z z"}
+	ds := &gen.Dataset{ID: "lookalikes"}
+	all := append(append([]string{}, look...), plain...)
+	for i := 0; i < 4*len(all)*len(all); i++ {
+		row := oracle.Row{"a": all[i%len(all)], "b": all[(i/len(all)+i/7)%len(all)]}
+		if i%5 == 0 {
+			row["c"] = all[(i*3)%len(all)]
+		}
+		ds.Rows = append(ds.Rows, row)
+	}
+	ds.Index()
+	dir := filepath.Join(r.Scratch, "lookalikes")
+	mustMkdir(dir)
+	path := filepath.Join(dir, "ds.updog")
+	if err := ix.Build(ix.Writers[int(r.Seed+1)%3], path, ds.Rows); err != nil {
+		r.Violation("lookalikes", "build", err.Error())
+		return
+	}
+	db, err := sql.Open("updog", "file:"+path)
+	if err != nil {
+		r.Violation("lookalikes", "sql.Open", err.Error())
+		return
+	}
+	poisoned := false
+	defer func() {
+		if !poisoned {
+			db.Close()
+		}
+	}()
+	rng := r.RNG("lookalikes")
+	n := 0
+	for li, lit := range look {
+		for _, arg := range all {
+			type shape struct {
+				tmpl *oracle.Expr
+				gb   []string
+				args []string
+			}
+			other := all[rng.Intn(len(all))]
+			shapes := []shape{
+				{oracle.Or(oracle.Eq("a", lit), oracle.PhEq("b", 1)), nil, []string{arg}},
+				{oracle.And(oracle.Eq("a", lit), oracle.Not(oracle.PhEq("b", 2))), []string{"b"}, []string{other, arg}},
+				{oracle.Or(oracle.PhEq("a", 2), oracle.And(oracle.Eq("b", lit), oracle.PhEq("a", 1))), []string{"a"}, []string{arg, other}},
+			}
+			sh := shapes[(li+n)%len(shapes)]
+			n++
+			for _, prepared := range []bool{false, true} {
+				cid := fmt.Sprintf("lookalikes/%d/prepared=%v", n, prepared)
+				if poisoned || !r.Want(cid) {
+					continue
+				}
+				text := gen.FormatQuery(sh.tmpl, sh.gb)
+				args := make([]any, len(sh.args))
+				for i, a := range sh.args {
+					args[i] = a
+				}
+				var rows *sql.Rows
+				var qerr error
+				panicked, msg, stack := vf.Try(func() {
+					if prepared {
+						st, err := db.Prepare(text)
+						if err != nil {
+							qerr = err
+							return
+						}
+						defer st.Close()
+						rows, qerr = st.Query(args...)
+					} else {
+						rows, qerr = db.Query(text, args...)
+					}
+				})
+				r.Eval(1)
+				r.Distinct(cid + "|" + text + "|" + fmt.Sprintf("%q", sh.args))
+				r.Count("bindings_next_to_placeholder_lookalike_literals", 1)
+				w := map[string]any{"text": fmt.Sprintf("%q", text), "args": fmt.Sprintf("%q", sh.args), "prepared": prepared}
+				if panicked {
+					w["panic"], w["stack"] = msg, head(stack, 2000)
+					r.Violation(cid, "panic", w)
+					poisoned = true
+					continue
+				}
+				if p := c11Check(ds, sh.tmpl, sh.gb, sh.args, rows, qerr); p != "" {
+					w["problem"] = p
+					r.Violation(cid, "literal-or-argument-reinterpreted", w)
+				}
+			}
+		}
+	}
+	// placeholder numbers beyond the 31-bit range with a short argument list: always an error (the number is not a
+	// placeholder of the language, and even read modulo something there are fewer arguments than it asks for)
+	for i, num := range []string{"2147483648", "4294967296", "4294967297", "4294967298", "8589934593", "1099511627777", "9223372036854775807", "18446744073709551617", "281474976710657"} {
+		for si, text := range []string{`a = $` + num, `a = $1 & b = $` + num, `b = $` + num + ` | a = $2 ; a`} {
+			for _, prepared := range []bool{false, true} {
+				cid := fmt.Sprintf("huge-placeholder/%d/%d/prepared=%v", i, si, prepared)
+				if poisoned || !r.Want(cid) {
+					continue
+				}
+				args := []any{"y", "1"}[:1+si%2+si/2]
+				var qerr error
+				var got string
+				panicked, msg, _ := vf.Try(func() {
+					var rows *sql.Rows
+					if prepared {
+						st, err := db.Prepare(text)
+						if err != nil {
+							qerr = err
+							return
+						}
+						defer st.Close()
+						rows, qerr = st.Query(args...)
+					} else {
+						rows, qerr = db.Query(text, args...)
+					}
+					if qerr == nil {
+						t, _ := readRows(rows)
+						got = fmtRows(t.Rows, 3)
+					}
+				})
+				r.Eval(1)
+				r.Distinct(cid)
+				r.Count("placeholder_numbers_beyond_31_bits", 1)
+				w := map[string]any{"text": text, "arguments": len(args), "prepared": prepared}
+				if panicked {
+					w["panic"] = msg
+					r.Violation(cid, "panic", w)
+					poisoned = true
+				} else if qerr == nil {
+					w["rows"] = got
+					w["explanation"] = "a placeholder number above 2147483647 was accepted and bound to one of the few arguments given"
+					r.Violation(cid, "too-few-arguments-accepted", w)
+				}
+			}
+		}
+	}
+}
